@@ -70,8 +70,14 @@ def norm_clause(j):
     return j
 
 
+ATOM_OBJ = {}      # canonical key -> normalised clause (to hand documents over to Coq)
+
+
 def atom_key(j):
-    return json.dumps(norm_clause(j), sort_keys=True, default=repr)
+    n = norm_clause(j)
+    k = json.dumps(n, sort_keys=True, default=repr)
+    ATOM_OBJ.setdefault(k, n)
+    return k
 
 
 def clause_field(j):
@@ -343,3 +349,227 @@ def documents(r, np, atoms, levels, exhaustive_bits=12, sample=200, max_docs=600
 
 def doc_repr(d):
     return {"true": sorted(d["truth"]), "subs": {p: [doc_repr(o) for o in l] for p, l in d["subs"].items() if l}}
+
+
+# ------------------------------------------------------------------ the property on one case
+
+def closure(np, levels):
+    out = set()
+    for l in levels:
+        for k in range(1, len(l) + 1):
+            if ".".join(l[:k]) in np:
+                out.add(tuple(l[:k]))
+    return out
+
+
+def compare(T, cfg, tree, j, r, np, keep=0, **readings):
+    """None when es_eval(j, d) == den(tree, d) on every enumerated document, else the first distinguishing
+    document; also returns the number of documents and up to `keep` sampled (document, es, den) triples"""
+    den = Den(T, cfg, np, **readings)
+    atoms, jl, paths = {}, [], set()
+    json_atoms(np, j, jl, paths)
+    for a, l in jl + den.term_atoms(tree):
+        atoms[a] = l
+    levels = closure(np, [l for l in atoms.values() if l] + list(paths))
+    n, kept, bad = 0, [], None
+    for d in documents(r, np, atoms, levels):
+        n += 1
+        x, y = es_eval(np, j, (), d), den.den(tree, None, (), (), d)
+        if len(kept) < keep and (n < 3 or r.random() < 0.02):
+            kept.append((d, x, y))
+        if x != y:
+            bad = (d, x, y)
+            break
+    return bad, n, kept
+
+
+def has_bare_term(T, t):
+    if isinstance(t, (T.Word, T.Phrase, T.Range)):
+        return True
+    if isinstance(t, T.SearchField):
+        return False
+    return any(has_bare_term(T, c) for c in t.children)
+
+
+def shape_predicates(T, cfg, tree):
+    """the known findings as predicates on the input alone"""
+    ideal, code = nested_paths(cfg, True), nested_paths(cfg, False)
+    df = comps(cfg.get("default_field", "text"))
+    return {
+        "F6": f6_shape(T, cfg, tree),
+        "F8": ideal != code,
+        "F17": has_bare_term(T, tree) and level_of(ideal, df) != (),
+    }
+
+
+READINGS = [("F6",), ("F8",), ("F17",), ("F6", "F17"), ("F6", "F8"), ("F8", "F17"), ("F6", "F8", "F17")]
+
+
+def classify(T, cfg, tree, j, r):
+    """a failure is a known finding when the input has the finding's shape AND the failure disappears once the
+    reference denotation adopts the code's reading on exactly that point (so that any other difference between
+    the JSON and the tree's meaning is still reported)"""
+    shapes = shape_predicates(T, cfg, tree)
+    for combo in READINGS:
+        if not all(shapes[f] for f in combo):
+            continue
+        np = nested_paths(cfg, "F8" not in combo)
+        bad, _, _ = compare(T, cfg, tree, j, r, np, code_bool="F6" in combo, code_default="F17" in combo)
+        if bad is None:
+            return combo
+    return None
+
+
+def sem_config(cfg):
+    for o in (cfg.get("field_options") or {}).values():
+        for k in ("match_type", "type"):
+            if o.get(k) in ("bool", "nested"):
+                return False
+    return True
+
+
+def wf_config(cfg):
+    for o in (cfg.get("field_options") or {}).values():
+        for k in ("match_type", "type"):
+            if k in o and not isinstance(o[k], str):
+                return False
+    return True
+
+
+DOCUMENTED = ("NestedSearchFieldException", "ObjectSearchFieldException", "OrAndAndOnSameLevel")
+
+
+# ------------------------------------------------------------------ Coq evaluation of the reference semantics
+
+SEM_DEFS = """Definition chk_sem (c : es_config * item * json * list (fdoc * bool * bool)) : bool :=
+  let '(cfg, t, j, docs) := c in
+  forallb (fun x => let '(f, es, dn) := x in
+                    Bool.eqb (es_matches cfg j (doc_of f)) es && Bool.eqb (den cfg t (doc_of f)) dn) docs."""
+SEM_IMPORTS = "Base Decimal Tree Json EsSpecs EsCheck EsBuild EsSpec EsSem"
+
+
+def g_fdoc(d, cands):
+    atoms = [E.g_json(ATOM_OBJ[k], cands) for k in sorted(d["truth"])]
+    kids = ["(%s, %s)" % (lib.g_str(p), lib.g_list([g_fdoc(o, cands) for o in l]))
+            for p, l in sorted(d["subs"].items())]
+    return "(FDoc %s %s)" % (lib.g_list(atoms), lib.g_list(kids))
+
+
+# ------------------------------------------------------------------ correspondence
+
+def witnesses(T, parser):
+    w = T.Word
+    return [
+        ({}, [T.BoolOperation(w("a"), T.AndOperation(w("x"), w("y"))),                 # F6
+              T.BoolOperation(w("b"), T.Group(T.Not(w("a")))),
+              T.BoolOperation(T.BoolOperation(T.Plus(w("a")), w("b")), w("d")),
+              T.BoolOperation(w("a"), T.Plus(w("b")), T.Prohibit(w("c"))),
+              parser.parse("NOT NOT a"), parser.parse("a AND (b OR NOT c)")], "F6"),
+        ({"default_operator": "must"}, [T.BoolOperation(w("a"), T.UnknownOperation(w("x"), w("y")))], "F6"),
+        ({"nested_fields": {"a": {"b": {"c": {}}}}},                                   # F8
+         [parser.parse("a:(b.c:x AND b.c:y)"), parser.parse("a.b.c:x")], "F8"),
+        ({"nested_fields": {"a": ["b"]}, "default_field": "a.b"},                      # F17
+         [parser.parse("x"), parser.parse("NOT x"), parser.parse("a.b:x")], "F17"),
+        ({"nested_fields": {"a": {"b": ["c"], "d": None}}},
+         [parser.parse(q) for q in ["a:(b.c:x AND d:y)", "a:(b.c:x)", "a.b.c:x AND a.d:y", "NOT a:(NOT d:x)",
+                                    "a:(b:(c:x AND c:y) OR d:z)", "a.d:x a.d:y", "(a.b.c:x)^2", "a:(d:x~2)",
+                                    '-a.d:"p q"~2 +a.b.c:[1 TO 5]']], "nested"),
+    ]
+
+
+def correspond(model_ok, res):
+    import luqum.tree as T
+    from luqum.parser import parser
+    r = lib.rng("C05")
+    rdoc = lib.rng("C05-docs")
+    n = 60 if lib.tier() == "quick" else 600
+    sessions = witnesses(T, parser) + E.builder_sessions(r, T, n, odd_share=0.2)
+    stats = {"judged": 0, "translated": 0, "refused": 0, "documents": 0, "known": {}, "unjudged": 0}
+    sem_cases, sem_payloads = [], []
+
+    def oracle(cfg, tree, outcome, info):
+        if not (E.supported(T, tree, strict=True) and wf_config(cfg) and sem_config(cfg)):
+            stats["unjudged"] += 1
+            return []
+        stats["judged"] += 1
+        payload = {"config": repr(cfg), "tree": info["desc"]}
+        if outcome[0] == "exc":
+            stats["refused"] += 1
+            if outcome[1] in DOCUMENTED:
+                return []
+            return [(dict(payload, why="exception other than the documented ones", observed=outcome[1]), None)]
+        stats["translated"] += 1
+        j = outcome[1]
+        try:
+            bad, ndocs, kept = compare(T, cfg, tree, j, rdoc, nested_paths(cfg, True), keep=3)
+        except Exception as e:  # noqa
+            return [(dict(payload, why="reference semantics could not be evaluated: %r" % e), None)]
+        stats["documents"] += ndocs
+        docs = kept + ([bad] if bad else [])
+        try:
+            cands = E.decimals_of(T, tree)
+            sem_cases.append("(%s, %s, %s, %s)" % (
+                E.g_config(cfg), lib.g_item(tree), E.g_json(j, cands),
+                lib.g_list(["(%s, %s, %s)" % (g_fdoc(d, cands), lib.g_bool(x), lib.g_bool(y)) for d, x, y in docs])))
+            sem_payloads.append(dict(payload, json=repr(j)[:600], documents=[doc_repr(d) for d, _, _ in docs][:2]))
+        except lib.Unmodelled:
+            pass
+        if bad is None:
+            return []
+        d, x, y = bad
+        combo = classify(T, cfg, tree, j, rdoc)
+        fid = None
+        if combo:
+            fid = combo[0]
+            stats["known"]["+".join(combo)] = stats["known"].get("+".join(combo), 0) + 1
+        return [(dict(payload, why="the query and the tree disagree on a document", json=repr(j)[:1500],
+                      document=doc_repr(d), query_matches=x, tree_denotes=y), fid)]
+
+    E.run_sessions("C05", res, model_ok, sessions, T, oracle)
+    res.rule = ("sessions of builder calls: fixed witnesses of the known findings and nested corpus, parsed corpus "
+                "x fixed configurations, random supported trees (grammar shapes) and odd trees x random "
+                "configurations; the equivalence oracle judges supported trees in grammar shapes under well-formed "
+                "configurations on all documents with <= 2 objects per nested path (all truth assignments up to "
+                "12 bits per shape, seeded samples beyond); non-trivial = distinct (configuration, tree) with more "
+                "than one node")
+    res.distribution["oracle"] = stats
+    # the Coq reference semantics against the Python mirror, on the implementation's JSON
+    if model_ok and sem_cases and not res.model_error:
+        canary = ("(default_config, Term KWord meta0 [120]%N, JObj [(k_bool, JObj [])], "
+                  "[(FDoc [] [], true, true)])")
+        try:
+            badi = lib.eval_cases("C05s", SEM_IMPORTS, SEM_DEFS, sem_cases + [canary], "chk_sem", shard=40)
+        except Exception as e:  # noqa
+            res.model_error = str(e)[-3000:]
+            return res
+        if len(sem_cases) not in badi:
+            res.model_error = "semantics canary not reported: the comparison is vacuous"
+        for i in badi:
+            if i < len(sem_cases):
+                res.disagreements.append(dict(sem_payloads[i], what="EsSem.v and its Python mirror disagree"))
+        res.distribution["semantics_cases"] = len(sem_cases)
+        res.cases += len(sem_cases)
+    return res
+
+
+SPEC = {
+    "id": "C05",
+    "targets": ["props/C05.vo"],
+    "model_targets": ["model/EsBuild.vo", "model/EsSpec.vo", "model/EsSem.vo"],
+    "module": "C05",
+    "theorems": ["C05_refuted"],
+    "correspond": correspond,
+    "statement": "on supported trees and well-formed configurations the builder raises a documented inconsistency "
+                 "exception or returns a JSON that matches (reference semantics of bool / nested / leaf clauses, "
+                 "EsSem.es_eval) exactly the documents the tree denotes (EsSem.den)",
+    "trusted_base": [
+        "Coq 8.16.1 kernel (vm_compute for witnesses and correspondence; no native_compute)",
+        "no axioms (Print Assumptions: closed under the global context)",
+        "coq/model/EsSem.v: the reference semantics of Elasticsearch bool / nested / leaf clauses and of luqum "
+        "trees, written from the ES documentation and the property text: the specification trusted for C05",
+        "hand-written models coq/model/{Json,EsSpecs,EsCheck,EsBuild}.v tied to the code by differential "
+        "correspondence on every run; the Python mirror of EsSem.v in harness/c05.py is compared with EsSem.v "
+        "on sampled documents on every run",
+    ],
+    "assumptions": [],
+}
